@@ -939,7 +939,8 @@ fn goal_call(rng: &mut Rng, w: &World, policy: &Policy, view: &View) -> Option<V
             if live_dls.len() < 2 {
                 // commit two sectors into a mutable deadline that holds none yet (long-lived enough for the claims)
                 let d = if !live_dls.contains(&((cur + 2) % nd)) { (cur + 2) % nd } else { (cur + 3) % nd };
-                let ns = fresh_numbers(2);
+                // (three sectors: two partitions per deadline)
+                let ns = fresh_numbers(3);
                 let exp = epoch + policy.min_sector_expiration + 2 * period + rng.range(0, 30);
                 return Some(json!({"a": "CommitNI", "m": m, "c": "worker", "dl": d, "requireAll": true,
                                    "sectors": ns.iter().map(|n| json!({"n": n, "exp": exp})).collect::<Vec<_>>()}));
@@ -964,12 +965,31 @@ fn goal_call(rng: &mut Rng, w: &World, policy: &Policy, view: &View) -> Option<V
             if gate - epoch >= policy.end_of_life_claim_drop_period {
                 return Some(json!({"a": "Tick", "n": (gate - epoch - policy.end_of_life_claim_drop_period + 1).min((wdw - into).max(1))}));
             }
-            let new_exp = with.iter().map(|s| s.exp).max().unwrap() + *rng.pick(&[24, 48, 30]);
-            let mut decls = vec![json!({"dl": first.dl, "p": first.p, "s": [], "exp": new_exp,
-                "claims": [{"n": first.n, "maintain": [], "drop": sc[&(m.to_string(), first.n)]}]})];
-            decls.push(json!({"dl": second.dl, "p": second.p, "s": [], "exp": new_exp,
-                "claims": [{"n": second.n, "maintain": if keep { sc[&(m.to_string(), second.n)].clone() } else { vec![] },
-                            "drop": if keep { vec![] } else { sc[&(m.to_string(), second.n)].clone() }}]}));
+            // every partition of the two deadlines gets a declaration (the first sector's partition first): sectors with
+            // claims declare them -- `first` drops, `second` keeps or drops, the others keep --, the rest are plain
+            let all: Vec<&SecView> = secs.iter().filter(|s| s.active() && (s.dl == first.dl || s.dl == second.dl)).collect();
+            let new_exp = all.iter().map(|s| s.exp).max().unwrap() + *rng.pick(&[24, 48, 30]);
+            let mut groups: Vec<(i64, u64)> = all.iter().map(|s| (s.dl, s.p)).collect();
+            groups.sort();
+            groups.dedup();
+            groups.sort_by_key(|g| (*g != (first.dl, first.p), g.0 != first.dl, *g));
+            let mut decls = vec![];
+            for g in groups {
+                let mut plain = vec![];
+                let mut claims = vec![];
+                for s2 in all.iter().filter(|s| (s.dl, s.p) == g) {
+                    match sc.get(&(m.to_string(), s2.n)) {
+                        Some(ids) if s2.vw > 0 => {
+                            let dropit = s2.n == first.n || (s2.n == second.n && !keep);
+                            claims.push(json!({"n": s2.n, "maintain": if dropit { vec![] } else { ids.clone() }, "drop": if dropit { ids.clone() } else { vec![] }}));
+                        }
+                        _ => plain.push(s2.n),
+                    }
+                }
+                let mut d = json!({"dl": g.0, "p": g.1, "s": plain, "exp": new_exp});
+                if !claims.is_empty() { d["claims"] = json!(claims); }
+                decls.push(d);
+            }
             drop(sc);
             done(w);
             Some(json!({"a": "Extend", "m": m, "c": "worker", "decls": decls}))
@@ -1055,8 +1075,8 @@ fn goal_call(rng: &mut Rng, w: &World, policy: &Policy, view: &View) -> Option<V
                 _ => {
                     if epoch - w.goal_dl.get() > 4 * period + 12 || secs.iter().all(|s| !s.live()) { done(w); w.neglect.set(false); return None; }
                     let limbs = ms["debt"].as_array().unwrap();
-                    // (mostly after the fault time-out two and a half periods in, so that the time-out meets the debt)
-                    if limbs.len() > 1 && ((epoch - w.goal_dl.get() > 2 * period + 18 && rng.chance(25)) || rng.chance(2)) {
+                    // (only after the fault time-out two and a half periods in, so that the time-out meets the debt)
+                    if limbs.len() > 1 && epoch - w.goal_dl.get() > 2 * period + 18 && rng.chance(25) {
                         let mut debt: u128 = 0;
                         for x in limbs.iter().skip(1).rev() {
                             debt = debt * 10_000 + x.as_u64().unwrap() as u128;
